@@ -1,6 +1,10 @@
 package main
 
-import "strings"
+import (
+	"strings"
+
+	"github.com/cloudspannerecosystem/memefish/token"
+)
 
 // The productions of G (see grammar.go for the notation).  Each block names the documentation page it is written from.
 
@@ -435,5 +439,23 @@ func gIdentRule() gLexSrc {
 	for _, n := range gKeywordLikeIdents {
 		r.alts = append(r.alts, gLexAlt{n, "id:" + strings.ToUpper(n)}, gLexAlt{strings.ToUpper(n), "id:" + strings.ToUpper(n)})
 	}
+	// near misses: a name that differs from a keyword-like word in its first or its last letter is an ordinary name (a comparison
+	// that skips a byte would read it as the word)
+	for _, n := range gKeywordLikeIdents {
+		for _, v := range []string{"x" + n[1:], n[:len(n)-1] + "x"} {
+			if v != n && !token.IsKeyword(v) && !gIsKeywordLike(v) {
+				r.alts = append(r.alts, gLexAlt{v, "id:" + strings.ToUpper(v)})
+			}
+		}
+	}
 	return r
+}
+
+func gIsKeywordLike(s string) bool {
+	for _, n := range gKeywordLikeIdents {
+		if strings.EqualFold(n, s) {
+			return true
+		}
+	}
+	return false
 }
